@@ -603,9 +603,64 @@ type C20Pair struct {
 	Prov   *prog.Node  `json:"prov,omitempty"`
 	Test   prog.Node   `json:"test"`
 	N      int         `json:"n"`
-	// Reads: instead of Test, every goroutine calls the scalar reducers and accessors of S
-	// (Sum, Max, Min, Avg, Var, Std, Mean, NElems, Shape, At)
+	// Reads: instead of Test, every goroutine runs the whole battery of single-operand calls on
+	// S: the scalar reducers (Sum, Max, Min, Avg, Var, Std, Mean, NElems), every unary op, every
+	// Along reducer / Flatten / UnSqueeze / Squeeze for every admissible dim, Transpose, Reshape,
+	// Broadcast, Slice
 	Reads bool `json:"reads,omitempty"`
+}
+
+// battery lists every single-operand operation applicable to a tensor of the given shape,
+// with every admissible dim argument (operand id 0).
+func battery(shape []int) []prog.Node {
+	rank := len(shape)
+	var ns []prog.Node
+	for _, op := range prog.Unary {
+		ns = append(ns, prog.Node{Op: op, In: []int{0}, F: 2})
+	}
+	for d := 0; d < rank; d++ {
+		for _, op := range prog.Along {
+			ns = append(ns, prog.Node{Op: op, In: []int{0}, I: d})
+		}
+		ns = append(ns, prog.Node{Op: "flatten", In: []int{0}, I: d})
+		if shape[d] == 1 {
+			ns = append(ns, prog.Node{Op: "squeeze", In: []int{0}, I: d})
+		}
+	}
+	for d := 0; d <= rank && rank < 6; d++ {
+		ns = append(ns, prog.Node{Op: "unsqueeze", In: []int{0}, I: d})
+	}
+	if rank >= 2 {
+		ns = append(ns, prog.Node{Op: "transpose", In: []int{0}})
+	}
+	ns = append(ns, prog.Node{Op: "reshape", In: []int{0}, S: []int{ref.Prod(shape)}})
+	if rank < 6 {
+		ns = append(ns, prog.Node{Op: "broadcast", In: []int{0}, S: append([]int{2}, shape...)})
+	}
+	ns = append(ns, prog.Node{Op: "slice", In: []int{0}}, prog.Node{Op: "add", In: []int{0, 0}}, prog.Node{Op: "eq", In: []int{0, 0}})
+	return ns
+}
+
+// runBattery applies the battery to s and snapshots every result, preceded by the scalar reads.
+func runBattery(s tensor.Tensor) ([]float64, []lib.Snapshot, error) {
+	reads := []float64{s.Sum(), s.Max(), s.Min(), s.Avg(), s.Var(), s.Std(), s.Mean(), float64(s.NElems())}
+	var snaps []lib.Snapshot
+	for _, n := range battery(s.Shape()) {
+		in := []tensor.Tensor{s}
+		if len(n.In) == 2 {
+			in = []tensor.Tensor{s, s}
+		}
+		y, err := prog.ApplyLib(n, in, nil)
+		if err != nil {
+			return nil, nil, fmt.Errorf("%s(%d) on shape %v: %w", n.Op, n.I, s.Shape(), err)
+		}
+		sn, err := lib.Snap(y)
+		if err != nil {
+			return nil, nil, err
+		}
+		snaps = append(snaps, sn)
+	}
+	return reads, snaps, nil
 }
 
 func init() { register("C20/pairs", checkC20Pair) }
@@ -654,7 +709,7 @@ func genC20Pair(t *rapid.T) C20Pair {
 		}
 	}
 	c.N = rapid.IntRange(2, 4).Draw(t, "goroutines")
-	c.Reads = rapid.IntRange(0, 5).Draw(t, "reads") == 0
+	c.Reads = rapid.IntRange(0, 2).Draw(t, "reads") == 0
 	return c
 }
 
@@ -732,7 +787,12 @@ func checkC20Pair(c C20Pair) *Failure {
 					}
 				}
 				s = pool[len(pool)-1]
-				reads[g] = []float64{s.Sum(), s.Max(), s.Min(), s.Avg(), s.Var(), s.Std(), s.Mean(), float64(s.NElems())}
+				r, sn, err := runBattery(s)
+				if err != nil {
+					errs[g] = err
+					return
+				}
+				reads[g], got[g] = r, sn
 				return
 			}
 			for rep := 0; rep < 2; rep++ {
@@ -755,7 +815,10 @@ func checkC20Pair(c C20Pair) *Failure {
 	wg.Wait()
 	if c.Reads {
 		s := pool[len(pool)-1]
-		want := []float64{s.Sum(), s.Max(), s.Min(), s.Avg(), s.Var(), s.Std(), s.Mean(), float64(s.NElems())}
+		want, wantSnaps, err := runBattery(s)
+		if err != nil {
+			return failf("sequential battery failed: %v", err)
+		}
 		for g := 0; g < c.N; g++ {
 			if errs[g] != nil {
 				return failf("goroutine %d: %v", g, errs[g])
@@ -763,6 +826,14 @@ func checkC20Pair(c C20Pair) *Failure {
 			for k := range want {
 				if len(reads[g]) != len(want) || !lib.SameBits(reads[g][k], want[k]) {
 					return failf("goroutine %d: concurrent reducer %d of the shared tensor = %v, sequentially %v", g, k, reads[g], want)
+				}
+			}
+			if len(got[g]) != len(wantSnaps) {
+				return failf("goroutine %d: battery produced %d results, sequentially %d", g, len(got[g]), len(wantSnaps))
+			}
+			for k := range wantSnaps {
+				if !got[g][k].Equal(wantSnaps[k]) {
+					return failf("goroutine %d: concurrent result %d of the battery on the shared tensor differs from the sequential one", g, k)
 				}
 			}
 		}
@@ -805,7 +876,7 @@ func checkC20Pair(c C20Pair) *Failure {
 }
 
 func TestC20_pairs(t *testing.T) {
-	run(t, 6000, func(rt *rapid.T) {
+	run(t, 4000, func(rt *rapid.T) {
 		c := genC20Pair(rt)
 		if f := guard(func() *Failure { return checkC20Pair(c) }); f != nil {
 			fail(rt, "C20/pairs", c, f)
